@@ -5,7 +5,7 @@ META = {
     "level": "model_checking",
     "technique": "TLA+ model of the derive macro's composition rules model-checked (+canary); traces of a real Swarm running a #[derive(NetworkBehaviour)] struct of three probe behaviours validated by TLC against the composition trace spec",
     "text": "TLC checks the composition rules (forward to all fields in order, ask in order and stop at the first denial, deny iff some asked field denies, route handler events back) and rejects a first-field-only canary. Conformance: a struct of three probe behaviours compiled with the real #[derive(NetworkBehaviour)] runs inside a real Swarm under seeded schedules (dials with per-field extra addresses and the extend flag, inbound connections, per-field deny decisions at pending and established stage, handler-to-behaviour events from each field's handler, NotifyHandler from each field, closes, failures, listener events); TLC checks every FromSwarm arrives as an adjacent b1,b2,b3 triple with identical content, decision callbacks are asked in field order and stop at the first denial, the connection fails with Denied iff some field denied, handler events reach the field that produced them, each field's notification reaches its own handler, and the dialed address set equals explicit + union of all fields' addresses (minus own listen address).",
-    "note": "Three fields of the same probe type; Toggle/Either wrappers are not covered.",
+    "note": "Three fields of the same probe type; the second field is wrapped in an enabled Toggle (its denials and events must pass through unchanged); Either is not covered.",
     "design_ref": "6/C58",
 }
 
